@@ -24,6 +24,9 @@ pub struct Outgoing {
     pub src: SocketAddr,
     pub dst: SocketAddr,
     pub bytes: Vec<u8>,
+    /// The send call was made to fail (see `set_send_errors`): the datagram never reaches the
+    /// network, but the harness still learns what the endpoint tried to send.
+    pub failed: bool,
 }
 
 #[derive(Clone, Copy, Debug, PartialEq)]
@@ -39,6 +42,7 @@ struct SimNet {
     ephemeral: VecDeque<SocketAddr>,
     auto_port: u16,
     send_failures: u64,
+    recv_failures: u64,
 }
 
 impl SimNet {
@@ -49,6 +53,7 @@ impl SimNet {
             ephemeral: VecDeque::new(),
             auto_port: 40000,
             send_failures: 0,
+            recv_failures: 0,
         }
     }
 
@@ -136,6 +141,11 @@ pub mod sim {
     pub fn send_failures() -> u64 {
         SIMNET.with(|n| n.borrow().send_failures)
     }
+
+    /// Number of receive calls that were made to fail since the last reset.
+    pub fn recv_failures() -> u64 {
+        SIMNET.with(|n| n.borrow().recv_failures)
+    }
 }
 
 #[derive(Debug)]
@@ -203,13 +213,14 @@ impl UdpSocket {
     fn send_impl(&self, buf: &[u8], dst: SocketAddr) -> io::Result<usize> {
         SIMNET.with(|n| {
             let mut n = n.borrow_mut();
+            let src = n.socks[self.id].local;
             if n.socks[self.id].send_errors > 0 {
                 n.socks[self.id].send_errors -= 1;
                 n.send_failures += 1;
+                n.outbox.push(Outgoing { src, dst, bytes: buf.to_vec(), failed: true });
                 return Err(io::Error::new(io::ErrorKind::Other, "simulated send failure"));
             }
-            let src = n.socks[self.id].local;
-            n.outbox.push(Outgoing { src, dst, bytes: buf.to_vec() });
+            n.outbox.push(Outgoing { src, dst, bytes: buf.to_vec(), failed: false });
             Ok(buf.len())
         })
     }
@@ -228,10 +239,12 @@ impl UdpSocket {
     pub fn recv_from(&self, buf: &mut [u8]) -> io::Result<(usize, SocketAddr)> {
         SIMNET.with(|n| {
             let mut n = n.borrow_mut();
+            let n = &mut *n;
             let ref mut sock = n.socks[self.id];
 
             if sock.recv_errors > 0 {
                 sock.recv_errors -= 1;
+                n.recv_failures += 1;
                 return Err(io::Error::new(io::ErrorKind::ConnectionRefused, "simulated receive failure"));
             }
 
